@@ -265,6 +265,10 @@ def scenBuilder (f0s fss obs : String) : Verdict :=
     else if String.intercalate ";" noReason == String.intercalate ";" (stripped.map (·.1)) then
       if reasonsOk then .note "builder rejection reason differs but applies"
       else .prop "C07" "rejection reason does not apply" a
+    else if !(f0.start && f0.idLast) then
+      -- C07 quantifies over packets opened by a start frame (start flag, announcing its frame count); what `new` answers to
+      -- another first frame is not constrained (what a *receiver* may deliver from such frames is C06's matter)
+      .note "the first frame is not a start frame announcing a frame count (outside C07's quantifier)"
     else if decide f0.WF && fs.all (fun f => decide f.WF) then
       .prop "C07" "accept/reject, state, frames_left or build differ from the exact-next-frame rule" a
     else .note "builder differs on ill-formed frames (outside every property)"
